@@ -706,13 +706,23 @@ package index
 //@   trusted T5 contract pending: converts a version-2 single-file index (chunkOldIndex is under contract); no-op for a current index
 //@   modifies ctx.$done
 
-//@ func scanIndex(ctx context.Context, basePath string, fileNum uint32, buckets Buckets, maxFileSize uint32) (last uint32, err error)
-//@   trusted loop over scanIndexFile (which is under contract) until a file does not exist
+// scanIndex: scanIndexFile for consecutive file numbers until one does not exist; an error of
+// any other kind aborts the open.
+//@ func scanIndex(ctx context.Context, basePath string, fileNum uint32, buckets Buckets, maxFileSize uint32) (last uint32, err error)  property C02 C03
+//@   requires maxFileSize > 0 && maxFileSize <= (1 << 30)
 //@   modifies elems(buckets), ctx.$done
+//@   ghost var gscanned int = 0
+//@   ghost at after call index.scanIndexFile#0: gscanned = gscanned + ite($r0 == nil, 1, 0)
+//@   assert at before call index.scanIndexFile#0: @consecutive-files $a2 == wrapu32(old(fileNum) + gscanned) && $a1 == basePath && $a4 == maxFileSize
+//@   internal ensures @last-scanned err == nil && gscanned > 0 ==> last == wrapu32(old(fileNum) + gscanned - 1)
+//@   loop 0 invariant fileNum == wrapu32(old(fileNum) + gscanned) && gscanned >= 0 && (gscanned > 0 ==> lastFileNum == wrapu32(old(fileNum) + gscanned - 1))
 
-//@ func findLastIndex(basePath string, fileNum uint32) (last uint32, err error)
-//@   trusted probes index file names upwards from fileNum with os.Stat
-//@   pure
+//@ func findLastIndex(basePath string, fileNum uint32) (last uint32, err error)  property C02
+//@   ghost var gfound int = 0
+//@   ghost at after call os.Stat#0: gfound = gfound + ite($r1 == nil, 1, 0)
+//@   assert at before call os.Stat#0: @consecutive-names $a0 == fname(basePath, wrapu32(old(fileNum) + gfound))
+//@   internal ensures @last-existing err == nil && gfound > 0 ==> last == wrapu32(old(fileNum) + gfound - 1)
+//@   loop 0 invariant fileNum == wrapu32(old(fileNum) + gfound) && gfound >= 0 && (gfound > 0 ==> lastFound == wrapu32(old(fileNum) + gfound - 1))
 
 //@ func remapIndex(ctx context.Context, mp *mhprimary.MultihashPrimary, buckets Buckets, basePath string, headerPath string, header Header) (pool bucketPool, err error)
 //@   trusted T5 contract pending: re-points index entries after a primary upgrade (RemapOffset is under contract); finding F16
